@@ -80,7 +80,8 @@ def modulo_counter(start=0., modulo=256., step=1.):
           for p in start:
             yield p % modulo % modulo
         else:
-          steps = int(modulo / step)
+          ratio = modulo / step
+          steps = int(ratio) if abs(ratio) < float("inf") else 0 # No batch
           if steps > 1:
             n = 0
             for p in start:
@@ -123,7 +124,8 @@ def modulo_counter(start=0., modulo=256., step=1.):
           while True:
             yield c
         else:
-          steps = int(modulo / step)
+          ratio = modulo / step
+          steps = int(ratio) if abs(ratio) < float("inf") else 0 # No batch
           if steps > 1:
             n = 0
             while True:
